@@ -3,6 +3,7 @@ package main
 import (
 	"fmt"
 	"go/ast"
+	"go/token"
 	"go/types"
 	"sort"
 	"strings"
@@ -42,9 +43,13 @@ func checkC06(p *Prog, r *Report) {
 	r.rule("C06.I2", "each verify primitive is dominated by the minimum-length guard (len >= cryptHeaderSize resp. >= NonceSize()+Overhead())", 4)
 	r.rule("C06.I3", "every node reachable from the entry without crossing a check-passed edge (or the no-cipher arm) has a transitive effect set within {Snmp.InCsumErrors, blockCrypt.decbuf/decMu, locals, the datagram buffer}; no channel operation, no goroutine", 20)
 	r.rule("C06.I4", "CRC coverage agrees: the reader compares bytes [nonceSize, nonceSize+crcSize) with the checksum of [cryptHeaderSize:] of the decrypted packet; the writer stores ChecksumIEEE(buf[cryptHeaderSize:]) at buf[nonceSize:] before every BlockCrypt.Encrypt (data and parity)", 3)
+	r.rule("C06.I7", "discarding must not crash: the error counters bumped for a failing datagram are 64-bit aligned on 32-bit platforms too (= C05.B11)", 10)
+	r.rule("C06.I8", "the cipher that checks incoming datagrams is the one the application configured: every store to UDPSession.block / Listener.block takes a BlockCrypt parameter as it is (or another session's/listener's block field), and so does every call that hands the cipher on — a configured cipher (the none cipher included: it still carries the CRC32) is never replaced or dropped on the way", 2)
 	r.rule("C06.I6", "a receive loop ends only on the socket's own error: the error variable tested is assigned by the read call alone, and every return inside the loop is dominated by that test — no property of a datagram (length 0, content) can end the loop", 2)
 	r.rule("C06.I5", "the verifying functions are siblings: each has the no-cipher arm, the AEAD gate and the CRC gate", 2)
 	checkReceiveLoopExits(p, r)
+	checkAtomicAlignment(p, r, "C06.I7")
+	checkCipherHandedThrough(p, r)
 
 	open := p.Method("aeadCrypt", "Open")
 	blockCryptT, _ := p.lookup("BlockCrypt").(*types.TypeName)
@@ -497,7 +502,7 @@ func (p *Prog) disallowedPreGate(n ast.Node) []string {
 		}
 	}
 	for f := range te.FieldW {
-		if o := p.FieldOwner(f); !preGateAllowedFields[o] {
+		if o := p.FieldOwner(f); !preGateAllowedFields[o] && !p.isPureCounter(f) {
 			addOff("writes " + o)
 		}
 	}
@@ -667,5 +672,160 @@ func checkReceiveLoopExits(p *Prog, r *Report) {
 	}
 	if n == 0 {
 		r.bad("C06.I6", "receive loops", "-", "exits of the receive loop", "no receive loop found", "")
+	}
+}
+
+// isPureCounter: an integer field that the package touches only as the operand &x.f of sync/atomic
+// Add/Load/Store/Swap functions — a statistics counter ("apart from an error counter" in C06): nothing
+// branches on it and nothing else is derived from it.
+func (p *Prog) isPureCounter(f *types.Var) bool {
+	f = f.Origin()
+	key := "purecounter:" + p.FieldOwner(f)
+	if v, ok := p.memo[key]; ok {
+		return v.(bool)
+	}
+	res := false
+	if b, ok := f.Type().Underlying().(*types.Basic); ok && b.Info()&types.IsInteger != 0 {
+		res = true
+		n := 0
+		for id, o := range p.Info.Uses {
+			v, ok := o.(*types.Var)
+			if !ok || v.Origin() != f {
+				continue
+			}
+			// composite-literal keys (zero initialisation) do not count as uses
+			if kv, isKV := p.parents[id].(*ast.KeyValueExpr); isKV && kv.Key == ast.Expr(id) {
+				continue
+			}
+			n++
+			var x ast.Node = id
+			if sel, isSel := p.parents[id].(*ast.SelectorExpr); isSel && sel.Sel == id {
+				x = sel
+			}
+			ue, isAddr := p.parents[x].(*ast.UnaryExpr)
+			if !isAddr || ue.Op != token.AND {
+				res = false
+				break
+			}
+			call, isCall := p.parents[ue].(*ast.CallExpr)
+			if !isCall {
+				res = false
+				break
+			}
+			cf := p.Callee(call)
+			if cf == nil || cf.Pkg() == nil || cf.Pkg().Path() != "sync/atomic" || len(call.Args) == 0 || call.Args[0] != ast.Expr(ue) {
+				res = false
+				break
+			}
+		}
+		if n == 0 {
+			res = false
+		}
+	}
+	p.memo[key] = res
+	return res
+}
+
+// checkCipherHandedThrough: C06.I8.
+func checkCipherHandedThrough(p *Prog, r *Report) {
+	fields := map[*types.Var]bool{p.Field("UDPSession", "block"): true, p.Field("Listener", "block"): true}
+	// asIs: e denotes a BlockCrypt parameter of fi that fi never assigns, a block field, or the result of a helper
+	// that returns its parameter on every path; returns the parameter (to follow the callers) when it is one
+	var asIs func(fi *FuncInfo, e ast.Expr, depth int) (bool, *types.Var)
+	asIs = func(fi *FuncInfo, e ast.Expr, depth int) (bool, *types.Var) {
+		t := p.Term(e)
+		switch {
+		case t.Op == "fld":
+			if fv, ok := t.Obj.(*types.Var); ok && fields[fv.Origin()] {
+				return true, nil
+			}
+		case t.Op == "var":
+			v, _ := t.Obj.(*types.Var)
+			if v != nil && p.isParam(v) && len(p.Assignments(rootFuncInfo(fi), v)) == 0 {
+				return true, v
+			}
+		case t.Op == "call" && depth < 2:
+			if f, ok := t.Obj.(*types.Func); ok && f.Pkg() == p.Types {
+				if h := p.FuncOf(f); h != nil {
+					if sps, understood := p.SymPaths(h); understood && len(sps) > 0 {
+						call, _ := ast.Unparen(e).(*ast.CallExpr)
+						for i := 0; call != nil && i < len(call.Args); i++ {
+							po, _ := h.paramObj(p, i).(*types.Var)
+							if po == nil {
+								continue
+							}
+							all := true
+							for _, sp := range sps {
+								if len(sp.Ret) != 1 || sp.Ret[0].Key() != tVar(po).Key() || len(sp.Stores) > 0 {
+									all = false
+								}
+							}
+							if all {
+								return asIs(fi, call.Args[i], depth+1)
+							}
+						}
+					}
+				}
+			}
+		}
+		return false, nil
+	}
+	n := 0
+	var follow func(fi *FuncInfo, v *types.Var, depth int)
+	seen := map[string]bool{}
+	follow = func(fi *FuncInfo, v *types.Var, depth int) {
+		root := rootFuncInfo(fi)
+		if root.Obj == nil || depth > 4 {
+			return
+		}
+		idx := -1
+		for i := 0; ; i++ {
+			o := root.paramObj(p, i)
+			if o == nil {
+				break
+			}
+			if o == v {
+				idx = i
+			}
+		}
+		if idx < 0 {
+			return
+		}
+		for _, s := range p.CallsTo(root.Obj) {
+			if idx >= len(s.Call.Args) {
+				continue
+			}
+			key := p.Pos(s.Call)
+			if seen[key] {
+				continue
+			}
+			seen[key] = true
+			n++
+			ok, pv := asIs(s.Fn, s.Call.Args[idx], 0)
+			t := p.Term(s.Call.Args[idx])
+			if t.Op == "nil" {
+				ok = true // an API variant without a cipher
+			}
+			r.check(ok, "C06.I8", s.Fn.Name, p.Pos(s.Call), "cipher argument of "+root.Name+" in "+s.Fn.Name, "handed on as configured", "the cipher passed to "+root.Name+" is "+exprString(s.Call.Args[idx])+", not the configured BlockCrypt as it is: the integrity check the application asked for can be replaced or dropped (a datagram that fails it is then accepted)")
+			if ok && pv != nil {
+				follow(s.Fn, pv, depth+1)
+			}
+		}
+	}
+	for f := range fields {
+		for _, st := range p.FieldStores(f) {
+			if st.Rhs == nil {
+				continue
+			}
+			n++
+			ok, pv := asIs(st.Fn, st.Rhs, 0)
+			r.check(ok, "C06.I8", st.Fn.Name, p.Pos(st.Node), "store("+p.FieldOwner(f)+") in "+st.Fn.Name, "the configured BlockCrypt as it is", "the installed cipher is "+exprString(st.Rhs)+", not the configured BlockCrypt as it is: the integrity check the application asked for can be replaced or dropped (a datagram that fails it is then accepted)")
+			if ok && pv != nil {
+				follow(st.Fn, pv, 0)
+			}
+		}
+	}
+	if n == 0 {
+		r.bad("C06.I8", "sessions and listeners", "-", "store of the cipher", "no store to UDPSession.block / Listener.block found", "")
 	}
 }
